@@ -51,12 +51,12 @@ def numba_cache_dir():
     d = os.path.join(base, _source_digest())
     if not os.path.isdir(d):
         os.makedirs(d, exist_ok=True)
-        # keep the disk bounded: only the 4 most recent digests survive
+        # keep the disk bounded: only the 24 most recent digests survive
         try:
             olds = sorted((os.path.join(base, x) for x in os.listdir(base)), key=os.path.getmtime)
             import shutil
 
-            for o in olds[:-4]:
+            for o in olds[:-24]:
                 shutil.rmtree(o, ignore_errors=True)
         except OSError:
             pass
